@@ -85,10 +85,7 @@ def step : List String → String
     | some b =>
       let one (d : Bytes) : String := match parseNumber (b ++ d) with | some n => toString n | none => "none"
       " ".intercalate [one [0x2c#8], one [0x5d#8], one [0x7d#8], one [0x20#8], one [], one [0x61#8],
-        bool01 (parseNumberFixed b == some b.length) ++ bool01 (Ref.isNumber b)]
-    | none => "bad-op"
-  | ["parsenumberfixed", h] => match bytesOfHex h with
-    | some b => (match parseNumberFixed b with | some n => toString n | none => "none")
+        bool01 (parseNumber b == some b.length) ++ bool01 (Ref.isNumber b)]
     | none => "bad-op"
   | ["parts", h] => match bytesOfHex h with
     | some b => (match parseNumberParts b with
@@ -139,10 +136,10 @@ def step : List String → String
     | some b => bool01 (Ref.rfcValid b)
     | none => "bad-op"
   | ["rfcnumber", h] => match bytesOfHex h with
-    | some b => bool01 (parseNumberFixed b == some b.length)   -- = RFC.Number b (C21.number_iff)
+    | some b => bool01 (parseNumber b == some b.length)   -- = RFC.Number b (C21.number_iff)
     | none => "bad-op"
   | ["numspec", h] => match bytesOfHex h with
-    | some b => bool01 (parseNumberFixed b == some b.length) ++ bool01 (Ref.isNumber b)
+    | some b => bool01 (parseNumber b == some b.length) ++ bool01 (Ref.isNumber b)
     | none => "bad-op"
   | ["rfcstring", h] => match bytesOfHex h with
     | some b => bool01 (Ref.isString b)
